@@ -28,7 +28,7 @@ SIMPLER_OP = {"||": "&&", "or": "&&", "and": "&&"}
 KINDS = ("if", "for", "while", "with", "try", "def")
 ONELINE_QUICK = ("if",)
 ONELINE_RICH = ("if", "for", "with", "def", "else", "try")
-POS0 = {"pre": None, "post": None, "semi": "tight", "wrap": None, "cont": None, "prelude": None, "tail": None, "blank": None, "eol": "lf"}
+POS0 = {"pre": None, "post": None, "semi": "tight", "wrap": None, "cont": None, "prelude": None, "tail": None, "blank": None, "eol": "lf", "history": None}
 
 
 def seg0(nwords):
@@ -63,6 +63,10 @@ def blocks(thorough):
             # nested plain brackets inside xonsh openers, in every argument slot of 1-3 segment chains
             dict(id="nest-s2w2-kf1-kp1", segs=(1, 2), words=2, kf=1, kfmin=1, kp=1, argset="nest"),
             dict(id="nest-s3w2-kf1-kp0", segs=(3, 3), words=2, wsel="eq2", kf=1, kfmin=1, kp=0, argset="nest", exec="none"),
+            # multi-line string + nested brackets in ONE segment next to a one-word segment
+            dict(id="combo-tq-nest", segs=(2, 2), words=3, kf=2, kp=1, chainset="combo", fields=("wrap",), exec="none"),
+            # history: an earlier compile on the SAME execer whose namespace bound every identifier of the line
+            dict(id="history-s2w2-kf1", segs=(1, 2), words=2, kf=1, kp=0, tq=1, family="history"),
             dict(id="eol-s2w2-kf0-kp2-layout", segs=(1, 2), words=2, kf=0, kp=2, kpmin=2, family="eol", fields=("cont", "tail", "blank", "pre", "post"), exec="none"),
         ]
     else:
@@ -82,6 +86,9 @@ def blocks(thorough):
             dict(id="nest-s2w3-kf1-kp1", segs=(1, 2), words=3, kf=1, kfmin=1, kp=1, argset="nest-rich"),
             dict(id="nest-s3w2-kf1-kp1", segs=(3, 3), words=2, wsel="eq2", kf=1, kfmin=1, kp=1, argset="nest-rich", exec="none"),
             dict(id="nest-s2w2-kf2-kp0", segs=(1, 2), words=2, kf=2, kfmin=2, kp=0, argset="nest-rich", exec="none"),
+            dict(id="combo-tq-nest", segs=(2, 2), words=3, kf=2, kp=1, chainset="combo", exec="none"),
+            dict(id="history-s2w3-kf1", segs=(1, 2), words=3, kf=1, kp=0, tq=1, family="history"),
+            dict(id="history-s2w2-kf0-kp1", segs=(1, 2), words=2, kf=0, kp=1, kpmin=1, family="history"),
             dict(id="eol-s2w3-kf1-kp1-layout", segs=(1, 2), words=3, kf=1, kp=1, family="eol", fields=("cont", "tail", "blank", "pre", "post")),
             dict(id="eol-s2w2-kf1-kp1", tq=1, segs=(1, 2), words=2, kf=1, kp=1, kpmin=1, family="eol", exec="none"),
             dict(id="eol-s3w2-kf0-kp1", segs=(3, 3), words=2, kf=0, kp=1, family="eol", exec="none"),
@@ -122,8 +129,22 @@ def _places(wc, tq=2, argset=None):
     return out
 
 
+def combo_chains():
+    """A one-word segment chained (either side, every operator) with a segment that holds BOTH a multi-line
+    triple-quoted word and a nested-bracket word (both orders)."""
+    for op in OPS:
+        for nest in NEST_QUICK:
+            for args in ([TQ_WORDS[0], nest], [nest, TQ_WORDS[0]]):
+                big = dict(seg0(1), args=list(args))
+                yield {"segs": [seg0(1), big], "ops": [op]}
+                yield {"segs": [dict(big, args=list(args)), seg0(1)], "ops": [op]}
+
+
 def chains(b):
     """Every chain of block b, simplest first."""
+    if b.get("chainset") == "combo":
+        yield from combo_chains()
+        return
     for nseg in range(b["segs"][0], b["segs"][1] + 1):
         for wc in _wcounts(nseg, b["words"], b["wsel"]):
             places = _places(wc, b.get("tq", 2), b.get("argset"))
@@ -429,6 +450,8 @@ def eol_positions(chain, kp, rich, kpmin=0, fields=None, eols=("crlf",)):
 
 def block_positions(b, chain):
     """The positions of block b for one chain."""
+    if b.get("family") == "history":
+        return (dict(p, history="prior-compile") for p in positions(chain, b["kp"], b["rich"], b["kpmin"], fields=b.get("fields")))
     if b.get("family") == "eol":
         return eol_positions(chain, b["kp"], b["rich"], b["kpmin"], b.get("fields"), b.get("eols", ("crlf",)))
     if b.get("prelude"):
@@ -453,6 +476,8 @@ def n_pos_devs(pos):
 
 def pos_label(pos):
     parts = []
+    if pos.get("history"):
+        parts.append("history=" + pos["history"])
     if pos.get("eol", "lf") != "lf":
         parts.append("eol=" + pos["eol"])
     if pos.get("prelude"):
@@ -529,7 +554,7 @@ def _with_cont(chain, pos):
 def reductions(chain, pos):
     """Candidate simplifications, in a fixed order (positions first, then segments, features, words, operators)."""
     # positions
-    for f in ("eol", "prelude", "wrap", "cont", "pre", "post", "semi", "tail", "blank"):
+    for f in ("history", "eol", "prelude", "wrap", "cont", "pre", "post", "semi", "tail", "blank"):
         if pos.get(f, POS0[f]) != POS0[f]:
             yield chain, dict(pos, **{f: POS0[f]})
     if pos.get("eol", "lf") == "cr":
